@@ -56,6 +56,19 @@ def _source_object(via: str, d: dict, target):
     from dictIO import DictReader, SDict
     if via == "dict":
         return d
+    if via == "proxy":
+        # nested dicts handed over as read-only mappings (types.MappingProxyType): still mappings, merged key by key
+        import types
+        from dictIO import DictReader
+        have = impl.plain(DictReader.read(target))
+
+        def ro(v, h):
+            # only where the file already has a dict under the same key (there the library merges key by key; a read-only
+            # mapping that is *added* as a whole would be handed to the serialisers, which is outside the value domain)
+            return {k: (types.MappingProxyType(ro(y, h[k])) if isinstance(y, dict) and isinstance(h.get(k), dict) and
+                        all(not isinstance(z, dict) or isinstance(h[k].get(kk), dict) for kk, z in y.items()) else y)
+                    for k, y in v.items()}
+        return ro(d, have)
     if via == "sdict" or not target.exists():
         return SDict(d)
     s = DictReader.read(target) if via == "reread" else SDict().load(target)
@@ -84,6 +97,8 @@ def process(ctx: Ctx, cases: list[dict]) -> None:
                 for step, (mode, d) in enumerate(seq):
                     reset_globals()
                     via = (c.get("via") or [])[step] if step < len(c.get("via") or []) else "dict"
+                    if via == "proxy" and not (mode == "a" and target.exists()):
+                        via = "dict"          # read-only mappings are exercised where the library merges them (append onto a file)
                     src = _source_object(via, copy.deepcopy(d), target)
                     if via == "dump" and mode == "a":
                         # SDict.dump() onto its own source file (append is the default)
@@ -132,7 +147,7 @@ def canon_model_floats(d):
 def gen_case(rng, fmt, n=None):
     n = n or rng.randint(1, 6)
     return {"kind": "seq", "fmt": fmt, "seq": [[rng.choice(["a", "a", "w", "x", "", "A"]), enc(gen_d(rng, f"W{i}"))] for i in range(n)],
-            "via": [rng.choice(["dict", "dict", "sdict", "reread", "load", "dump"]) for _ in range(n)]}
+            "via": [rng.choice(["dict", "dict", "sdict", "reread", "load", "dump", "proxy"]) for _ in range(n)]}
 
 
 def run(ctx: Ctx) -> None:
